@@ -203,9 +203,48 @@ def range_tables(ctx):
     ctx.oblige("spec: every hydrogen-bond and Coulomb kernel of the shipped parameters vanishes at 20 A (%d table entries)" % n, not bad, str(bad[:2]))
 
 
+def far_extension_family(ctx):
+    """the hypotheses of `before_iterative_extend` (Lean structure FarExtension, R = 20 A) evaluated on real unions: a part
+    alone and the same part followed - in the file and hence in the atom and group tables - by another part 25-60 A away"""
+    from .. import scoring_common as S
+    from propka.parameters import Parameters
+    from propka.input import read_parameter_file
+    P = read_parameter_file("propka.cfg", Parameters())
+    rnd = ctx.rng
+    bad, n, ngroups = [], 0, 0
+    for k in range(6 if ctx.quick() else 40):
+        la = pdbgen.relabel([l for l in pdbgen.multichain(rnd, nchains=1, chains="A")[0] if not l.startswith("TER")], chain="A")
+        lb = pdbgen.relabel([l for l in pdbgen.multichain(rnd, nchains=1, chains="A")[0] if not l.startswith("TER")], chain="B")
+        if k % 3 == 2:
+            lb = pdbgen.truncate_sidechains(rnd, lb, 2)
+        lb = place_far(la, lb, rnd.choice([25.0, 30.0, 60.0]))
+        with S.Snapshots() as s1:
+            o1 = observe.run(pdbgen.text(la + ["TER   \n"]), [], want_text=False)
+        with S.Snapshots() as s2:
+            o2 = observe.run(pdbgen.text(la + ["TER   \n"] + lb + ["TER   \n"]), [], want_text=False)
+        if o1.error or o2.error or len(s1.snaps) != 1 or len(s2.snaps) != 1:
+            continue
+        n += 1
+        ngroups += len(s1.snaps[0][1][1])
+        ctx.case(key=("far-extension", k, hash(pdbgen.text(la + lb))))
+        probs = far_extension_problems_of(s1.snaps[0][1], s2.snaps[0][1], P)
+        if probs:
+            bad.append((k, probs[:3], pdbgen.text(la + ["TER   \n"] + lb + ["TER   \n"])))
+    ctx.count("unions on which the hypotheses of the extension theorem were evaluated", n)
+    ctx.oblige("hypotheses: FarExtension (R = 20 A) holds for %d real unions (tables of the first part are a prefix of the union's, closed under "
+               "interaction atoms and bonds; every new atom and centre at least 20 A from every old one; no cut-off above 20 A; %d old groups)" % (n, ngroups),
+               not bad and n > 0, str([(b[0], b[1]) for b in bad[:2]])[:400])
+
+
+def far_extension_problems_of(old, new, P):
+    from .. import scoring_common as S
+    return S.far_extension_problems(old, new, P)
+
+
 def _run(ctx):
     rnd = ctx.rng
     range_tables(ctx)
+    far_extension_family(ctx)
     parts = []
     for i in range(6 if ctx.quick() else 40):
         lines, ids = pdbgen.multichain(rnd, nchains=1, chains="A")
